@@ -349,3 +349,110 @@ class ConvergeBandsKeepsPsp:
 
 register(Obligation(name="C19.SCF.converge_bands.potential_current", prop=PROP, engine="B", bounded=True, run=ConvergeBandsKeepsPsp(), functions=["eminus.scf:SCF.converge_bands"],
                     budget={"quick": 200, "thorough": 300}, doc="BOUNDED: after new k-points, converge_bands re-runs the potential setup without losing a user-given pseudopotential path"))
+
+
+# ------------------------------------------------------------------------------------------------
+# bounded: mutation histories of Atoms and SCF objects against fresh objects with the same final inputs
+# ------------------------------------------------------------------------------------------------
+
+
+class AtomsSetterHistories:
+    """BOUNDED: k-point configuration (meshes, one-point and sampled band paths, shifts, custom k-points) x new value x (build() | SCF(atoms)) after an earlier
+    build(): every derived quantity equals that of a fresh object with the same final inputs (contracts/c19_replay.generic_setter_history)."""
+
+    def __init__(self, member):
+        self.member = member
+
+    def __call__(self, ob, tier, seed):
+        from contracts.c19_replay import generic_setter_history
+        from pycv.framework import BOUNDED_OK
+
+        try:
+            bad, info = generic_setter_history(self.member)
+        except Exception as e:  # noqa: BLE001
+            bad, info = True, dict(raised=f"{type(e).__name__}: {e}")
+        if bad:
+            return Result(REFUTED, backend="native", witness=dict(member=self.member), replayed=True, replay_info=info, detail=f"Atoms.{self.member}: {str(info)[:300]}")
+        return Result(BOUNDED_OK, backend="native", detail=f"bounded: {info['note']}")
+
+    def replay(self, wit):
+        from contracts.c19_replay import generic_setter_history
+
+        return generic_setter_history(self.member)
+
+
+for _m in ("a", "ecut", "s", "pos"):
+    register(Obligation(name=f"C19.Atoms.{_m}.histories_equal_fresh", prop=PROP, engine="B", bounded=True, run=AtomsSetterHistories(_m),
+                        functions=[f"eminus.atoms:Atoms.{_m}", "eminus.atoms:Atoms.build", "eminus.atoms:Atoms.set_k", "eminus.scf:SCF.atoms"], budget={"quick": 300, "thorough": 600},
+                        doc=f"BOUNDED: assigning Atoms.{_m} after a build, under eight k-point configurations (incl. custom k-points), followed by build() or SCF(atoms): as a fresh object"))
+
+
+class ScfHistories:
+    """BOUNDED: histories on an SCF object whose result must equal a fresh SCF with the same final inputs: potential parameters set and reset to
+    the defaults, geometry changed between two runs (the stored Ewald energy follows), functional changed, recenter."""
+
+    def problems(self):
+        import numpy as np
+
+        import eminus
+        from eminus import SCF, Atoms
+        from eminus.energies import get_Eewald
+
+        eminus.config.backend = "numpy"
+        eminus.config.verbose = "critical"
+        bad = []
+
+        def vdiff(x, y):
+            return float(np.abs(np.asarray(x) - np.asarray(y)).max())
+
+        # potential parameters: custom -> back to the defaults ({} and None)
+        for pot, par in (("harmonic", {"freq": 1.0}), ("lr", {"alpha": 2.5})):
+            for reset in ({}, None):
+                at = Atoms("He", [0.1, 0.2, 0.3], ecut=3, a=6)
+                scf = SCF(at, pot=pot, verbose="critical")
+                scf.pot_params = par
+                scf.pot_params = reset
+                ref = SCF(Atoms("He", [0.1, 0.2, 0.3], ecut=3, a=6), pot=pot, verbose="critical")
+                d = vdiff(scf.Vloc, ref.Vloc)
+                if d > 1e-12:
+                    bad.append(dict(history=f"SCF(pot={pot!r}); pot_params = {par}; pot_params = {reset}", Vloc_differs_from_fresh_by=d))
+                scf.pot_params = par
+                ref2 = SCF(Atoms("He", [0.1, 0.2, 0.3], ecut=3, a=6), pot=pot, verbose="critical")
+                ref2.pot_params = par
+                d = vdiff(scf.Vloc, ref2.Vloc)
+                if d > 1e-12:
+                    bad.append(dict(history=f"SCF(pot={pot!r}); pot_params = {par} (second time)", Vloc_differs_from_fresh_by=d))
+        # geometry changed between two runs: stored ion-ion energy
+        a = [[6.0, 0.3, 0.0], [0.0, 6.5, 0.2], [0.1, 0.0, 7.0]]
+        at = Atoms(["H", "H"], [[0.0, 0.0, 0.0], [0.0, 0.3, 1.4]], ecut=2, a=a)
+        scf = SCF(at, opt={"sd": 1}, verbose="critical")
+        scf.run()
+        e1 = float(scf.energies.Eewald)
+        for desc, new in (("cell and positions doubled", dict(a=(2 * np.asarray(a)).tolist(), pos=[[0.0, 0.0, 0.0], [0.0, 0.6, 2.8]])),
+                          ("one atom moved", dict(a=a, pos=[[0.0, 0.0, 0.0], [0.5, 0.3, 1.9]]))):
+            scf.atoms = Atoms(["H", "H"], new["pos"], ecut=2, a=new["a"])
+            scf.W = None  # the basis changed: start from a new guess
+            scf.run()
+            want = float(get_Eewald(scf.atoms))
+            if abs(float(scf.energies.Eewald) - want) > 1e-10:
+                bad.append(dict(history=f"run(); scf.atoms = new geometry ({desc}); run()", stored_Eewald=float(scf.energies.Eewald), lattice_sum_of_current_geometry=want, first_run=e1))
+        return bad
+
+    def __call__(self, ob, tier, seed):
+        from pycv.framework import BOUNDED_OK
+
+        try:
+            bad = self.problems()
+        except Exception as e:  # noqa: BLE001
+            bad = [dict(raised=f"{type(e).__name__}: {e}")]
+        if bad:
+            return Result(REFUTED, backend="native", witness=bad[0], replayed=True, replay_info=dict(failing=bad[:4]), detail=f"SCF history differs from a fresh object: {bad[0]}")
+        return Result(BOUNDED_OK, backend="native", detail="bounded: pot_params set / reset / set again (harmonic, lr), geometry changed between two runs (stored Ewald energy): as fresh objects")
+
+    def replay(self, wit):
+        bad = self.problems()
+        return bool(bad), dict(failing=bad[:4])
+
+
+register(Obligation(name="C19.SCF.histories_equal_fresh", prop=PROP, engine="B", bounded=True, run=ScfHistories(), functions=["eminus.scf:SCF.pot_params", "eminus.scf:SCF.atoms", "eminus.scf:SCF.run"],
+                    budget={"quick": 300, "thorough": 600}, doc="BOUNDED: SCF objects after parameter resets and geometry changes between runs equal fresh objects (Vloc, stored Ewald energy)"))
